@@ -121,8 +121,12 @@ func (t *Trans) callStatic(fr *Frame, f *ssa.Function, argVals []ssa.Value, args
 		if f.Blocks != nil && !c.Trusted && t.P.isClover(f) {
 			w = t.P.funcWrites(t.env, f)
 		}
-		t.checkCallbackArgs(fr, c.Key, shortFn(f), names, ptypes, argVals, pos)
-		return t.applyContract(fr, c, shortFn(f), f.Signature, names, ptypes, args, w, pos)
+		pend := t.checkCallbackArgs(fr, c.Key, shortFn(f), names, ptypes, argVals, pos)
+		res := t.applyContract(fr, c, shortFn(f), f.Signature, names, ptypes, args, w, pos)
+		for _, p := range pend {
+			t.assume(fr.curReach, p(fr.st))
+		}
+		return res
 	}
 	if t.canInline(f, c) {
 		return t.inlineCall(fr, f, c, argVals, args, freeVars, pos)
